@@ -14,16 +14,16 @@ pub assume_specification[ u8::is_ascii_graphic ](c: &u8) -> (r: bool)
 #[verifier::external_body] pub struct FieldExpression { _p: () }
 #[verifier::external_body] pub struct FunctionExpression { _p: () }
 #[verifier::external_body] pub struct Identifier { _p: () }
-#[verifier::external_body] pub struct IfExpression { _p: () }
 #[verifier::external_body] pub struct IndexExpression { _p: () }
 #[verifier::external_body] pub struct NumberExpression { _p: () }
 #[verifier::external_body] pub struct ParentheseExpression { _p: () }
 #[verifier::external_body] pub struct StringExpression { _p: () }
 #[verifier::external_body] pub struct InterpolatedStringExpression { _p: () }
 #[verifier::external_body] pub struct TableExpression { _p: () }
-#[verifier::external_body] pub struct UnaryExpression { _p: () }
 #[verifier::external_body] pub struct TypeCastExpression { _p: () }
 #[verifier::external_body] pub struct TypeInstantiationExpression { _p: () }
+#[verifier::external_body] pub struct IfExpressionTokens { _p: () }
+#[verifier::external_body] pub struct ElseIfExpressionBranchTokens { _p: () }
 
 // ---------------------------------------------------------------- O-prec (DESIGN.md section 3)
 pub open spec fn lvl(op: BinaryOperator) -> int {
@@ -70,6 +70,36 @@ pub open spec fn fuses(a: char, b: char) -> bool {
 // abstract view of the private `operator` field (fields are private, contracts are public)
 impl BinaryExpression {
     pub closed spec fn spec_operator(&self) -> BinaryOperator { self.operator }
+}
+
+// abstract views of the private child fields read by the extracted getters
+impl BinaryExpression {
+    pub closed spec fn spec_right(&self) -> Expression { self.right }
+}
+impl UnaryExpression {
+    pub closed spec fn spec_expression(&self) -> Expression { self.expression }
+}
+impl IfExpression {
+    pub closed spec fn spec_else_result(&self) -> Expression { self.else_result }
+}
+
+// ---------------------------------------------------------------- O-stmt (Lua 5.1 manual 2.4.1 / 2.5.8)
+// "the text of expression e ENDS with a prefix expression" -- then a following `(` on the next statement
+// would be read as a call of it (the ambiguity the manual describes), so a `;` is needed.  By the grammar:
+// the last token of `l op r` is the last token of r; of `op x` that of x; of `if c then a else b` that of b;
+// a call, a parenthesised expression, a name, `p.f`, `p[i]` and `f<<T>>` ARE prefix expressions; literals,
+// function / table constructors, `...` and `x :: T` (ends with a type) are not.
+pub open spec fn ends_like_prefix(e: Expression) -> bool
+    decreases e
+{
+    match e {
+        Expression::Binary(b) => ends_like_prefix(b.spec_right()),
+        Expression::Unary(u) => ends_like_prefix(u.spec_expression()),
+        Expression::If(i) => ends_like_prefix(i.spec_else_result()),
+        Expression::Call(_) | Expression::Parenthese(_) | Expression::Identifier(_) | Expression::Field(_)
+        | Expression::Index(_) | Expression::TypeInstantiation(_) => true,
+        _ => false,
+    }
 }
 
 // The two callees Verus rejects (`break <value>` inside `loop`): uninterpreted, nothing assumed.
